@@ -171,7 +171,7 @@ class MLETomographyAlgorithm:
             alpha = 0.5
             new_cost = self._cost(choi + alpha * mod, n_vec)
             thresh_value = gamma * np.trace(
-                mod @ np.conj(self._gradient(choi.T, n_vec))
+                mod @ np.conj(self._gradient(choi, n_vec))
             )
             while new_cost > current_cost + alpha * thresh_value:
                 alpha *= 0.5
@@ -231,7 +231,7 @@ class MLETomographyAlgorithm:
         Calculates the expected measurement outcomes from the provided choi
         matrix.
         """
-        return (self._a_matrix @ _vec(choi.T)).clip(1e-8)
+        return (self._a_matrix @ _vec(choi)).clip(1e-8)
 
     def _cost(self, choi: np.ndarray, n_vec: np.ndarray) -> np.ndarray:
         """
